@@ -673,3 +673,95 @@ Definition locked_or_open (open : list (list string)) (rows : list (list string 
 
 Definition children_of (t : stree) : list stree :=
   match t with Node _ _ _ _ _ ch => ch | Leaf _ => [] end.
+
+(* ------------------------------------------------------------------ model-side enumerators (every leaf x alternatives) *)
+Definition bound_vals (lo hi : bound) : list Q :=
+  ((match lo with Some (q, _) => [q; q + 1; q - 1] | None => [] end) ++
+   (match hi with Some (q, _) => [q; q - 1; q + 1] | None => [] end) ++ [0; 1; 3 # 2; 5; -150])%list.
+Definition alts_of (sib : list stree) (l : leaf) : list jv :=
+  ((match base (lty l) with
+    | BBool => [JBool true; JBool false; JStr " Yes "; JNum 0]
+    | BFloat lo hi => map JNum (bound_vals lo hi)
+    | BInt lo hi => map JNum (bound_vals lo hi)
+    | BStr => flat_map (fun t => match t with
+                                 | Leaf l' => match base (lty l') with BStr => [ldefault l'] | _ => [] end
+                                 | Node _ _ _ _ _ _ => []
+                                 end) sib
+    | BEnum vals => map JStr vals
+    | BFloatOrLit lit => [JStr lit; JNum 2; JNum (3 # 2); JNum 0]
+    | BListFloat => [JList [JNum 1; JNum 2]; JList [JNum (7 # 5); JNum (1 # 2)]]
+    | BListStr => []
+    | BListAny => []
+    end) ++ [JNull; JStr "no such value"; JList [JBool true]])%list.
+
+(* (path, leaf, siblings) of every leaf below a root *)
+Definition leaves_sib_of_root (t : stree) : list (list string * leaf * list stree) :=
+  flat_map (fun c => match c with
+                     | Leaf l => [([lname l], l, children_of t)]
+                     | Node n _ _ _ _ ch =>
+                         flat_map (fun c' => match c' with Leaf l => [([n; lname l], l, ch)] | Node _ _ _ _ _ _ => [] end) ch
+                     end) (children_of t).
+
+(* one field overridden, developer mode not given: a developer leaf that changes is refused by the lock, a value
+   the field cannot take is refused as a field error, an open leaf that takes a valid value shows it.  A rule of a
+   NESTED class (option names, reduce_splits_num_std) fails while the nested object is built, i.e. as a field
+   error of the root, before the root's lock runs. *)
+Definition nested_path (path : list string) : bool := match path with _ :: _ :: _ => true | _ => false end.
+Definition single_override_ok (reg : registry) (t : stree) (x : list string * leaf * list stree) (v : jv) : bool :=
+  match x with
+  | (path, l, _) =>
+      match coerce (lty l) (pre v) with
+      | None => match vtop reg t (override path v) with Reject RField => true | _ => false end
+      | Some v' =>
+          if ldev l then
+            if jv_eqb v' (ldefault l) then match vtop reg t (override path v) with Accept _ => true | _ => false end
+            else match vtop reg t (override path v) with
+                 | Reject RDeveloper => true
+                 | Reject RField => nested_path path
+                 | _ => false
+                 end
+          else
+            match vtop reg t (override path v) with
+            | Accept s => match value_at s path with Some got => jv_eqb got (add_required (lreq l) v') | None => false end
+            | Reject RField => nested_path path
+            | Reject _ => false
+            end
+      end
+  end.
+Definition all_single_overrides_ok (reg : registry) (t : stree) : bool :=
+  forallb (fun x => forallb (single_override_ok reg t x) (alts_of (snd x) (snd (fst x)))) (leaves_sib_of_root t).
+
+(* ------------------------------------------------------------------ well-formedness used by the exactness theorem *)
+Fixpoint nodupb (l : list string) : bool :=
+  match l with [] => true | x :: r => negb (mem x r) && nodupb r end.
+(* field names unique at every level, no nested settings object is optional *)
+Fixpoint wf_tree (t : stree) : bool :=
+  match t with
+  | Leaf _ => true
+  | Node _ _ _ opt _ ch => negb opt && nodupb (map tname ch) && forallb wf_tree ch
+  end.
+Definition wf_children (ch : list stree) : bool := nodupb (map tname ch) && forallb wf_tree ch.
+
+(* ------------------------------------------------------------------ build -> store -> reload on the enumerated overrides *)
+Definition with_dev (dm : bool) (kvs : list (string * jv)) : list (string * jv) :=
+  if dm then ("developer_mode", JBool true) :: ("silent_developer_mode", JBool true) :: kvs else kvs.
+Inductive reload_shape := SameRecord | LockedOutUnlessDev.
+(* SameRecord: the record reloads and the reloaded settings dump to the record.
+   LockedOutUnlessDev (what DailyModel(model="legacy") does today): it does so only for a model built in developer
+   mode; any other record is refused by the lock of the current defaults. *)
+Definition reload_ok (reg : registry) (shape : reload_shape) (c : ctor) (kvs : list (string * jv)) : bool :=
+  match construct reg c (InDict kvs) with
+  | Reject _ => true
+  | Accept s =>
+      let doc := stored_settings c s in
+      match reload reg c doc, shape with
+      | Accept s', SameRecord => jv_eqb (dump s') doc
+      | Accept s', LockedOutUnlessDev => jv_eqb (dump s') doc && (match developer_mode_of s with Some true => true | _ => false end)
+      | Reject RDeveloper, LockedOutUnlessDev => match developer_mode_of s with Some false => true | _ => false end
+      | Reject _, _ => false
+      end
+  end.
+Definition all_reloads_ok (reg : registry) (shape : reload_shape) (c : ctor) (t : stree) : bool :=
+  forallb (fun x => forallb (fun v => reload_ok reg shape c (with_dev (ldev (snd (fst x))) (override (fst (fst x)) v)))
+                            (alts_of (snd x) (snd (fst x))))
+          (leaves_sib_of_root t).
